@@ -46,6 +46,8 @@ func judgeDialogue(evs []Event) []string {
 		switch e.Kind {
 		case "connect":
 			pending = "greeting"
+		case "unread":
+			j.problem("command %q sent while %q of the previous reply was still unread (out of step)", e.Line, e.Data)
 		case "cmd":
 			if j.closed {
 				j.problem("command %q after the connection was closed by the server", e.Line)
